@@ -129,6 +129,47 @@ pub fn gen(rng: &mut Rng, n: usize, sink: &mut Sink, focus: &str) {
                 }
             }
             let p = pool[k].clone();
+            if focus == "C16" && !p.real && etas[k] > 0 && rng.chance(1, 4) {
+                // one caller fails the same matured proposal several times in a row (the failure callback restores
+                // the time lock): credits of that caller pile up, with and without EGLD attached
+                if etas[k] > now {
+                    now = etas[k];
+                    sink.exec(&format!("time {}", now));
+                }
+                let caller = user(rng.below(3) as u8);
+                let rounds = rng.range(2, 3);
+                for _ in 0..rounds {
+                    let (egld, esdt) = match rng.below(5) {
+                        0 | 1 => (rng.pick(&["25", "7", "100"]).to_string(), "-".to_string()),
+                        2 => ("0".to_string(), "-".to_string()),
+                        3 => ("0".to_string(), format!("{}:0:40", TOKENS[0])),
+                        _ => ("0".to_string(), format!("{}:0:10,{}:0:5", TOKENS[0], TOKENS[0])),
+                    };
+                    let out = sink.exec(&format!(
+                        "tx {} {} executeProposal {} {} {}",
+                        hex::encode(&caller),
+                        hex::encode(&gaddr),
+                        egld,
+                        esdt,
+                        args(&[p.target.clone(), p.call_data.clone(), nat(p.value)])
+                    ));
+                    if out.starts_with("ok") && !out.ends_with("pend=-") {
+                        let id = next_pend;
+                        next_pend += 1;
+                        let ok = rng.chance(1, 6);
+                        sink.exec(&if ok { format!("deliver {} ok -", id) } else { format!("deliver {} fail", id) });
+                        if rng.chance(1, 4) {
+                            sink.exec(&format!("tx {} {} withdrawRefundToken 0 - {}", hex::encode(&caller), hex::encode(&gaddr), args(&[token_arg("EGLD", 0)])));
+                        }
+                        sink.exec(&format!("cb {}", id));
+                        sink.exec(&format!("query {} getRefundToken {}", hex::encode(&gaddr), args(&[caller.clone(), token_arg("EGLD", 0)])));
+                        sink.exec(&format!("query {} getRefundToken {}", hex::encode(&gaddr), args(&[caller.clone(), token_arg(TOKENS[0], 0)])));
+                    }
+                }
+                let e = sink.exec(&format!("query {} getProposalEta {}", hex::encode(&gaddr), args(&[p.target.clone(), p.call_data.clone(), nat(p.value)])));
+                etas[k] = parse_hex_u64(&e);
+                continue;
+            }
             if r < w_cmd {
                 // governance command through the gateway
                 let cmd = match focus {
@@ -193,13 +234,15 @@ pub fn gen(rng: &mut Rng, n: usize, sink: &mut Sink, focus: &str) {
                 let (egld, esdt) = match rng.below(if focus == "C16" { 6 } else { 8 }) {
                     4 => ("0".to_string(), format!("{}:5:40", SFT)), // semi-fungible: non-zero nonce
                     5 => ("0".to_string(), format!("{}:5:3,{}:0:7,{}:6:2", SFT, TOKENS[0], SFT)),
-                    0 => ("25".to_string(), "-".to_string()),
+                    0 => (rng.pick(&["25", "25", "7", "100"]).to_string(), "-".to_string()),
                     1 => ("0".to_string(), format!("{}:0:40", TOKENS[0])),
                     2 => ("0".to_string(), format!("{}:0:10,{}:0:20,{}:0:5", TOKENS[0], TOKENS[1], TOKENS[0])),
                     _ => ("0".to_string(), "-".to_string()),
                 };
                 let caller = if operator_path {
                     if rng.chance(4, 5) { operator.clone() } else { user(rng.below(6) as u8) }
+                } else if focus == "C16" && rng.chance(2, 3) {
+                    user(rng.below(2) as u8) // few callers: credits of one caller pile up over several failures
                 } else {
                     user(rng.below(6) as u8)
                 };
@@ -239,6 +282,12 @@ pub fn gen(rng: &mut Rng, n: usize, sink: &mut Sink, focus: &str) {
                     } else {
                         sink.exec(&format!("cb {}", id));
                         pend.remove(i);
+                        if focus == "C16" {
+                            for u in 0..2u8 {
+                                sink.exec(&format!("query {} getRefundToken {}", hex::encode(&gaddr), args(&[user(u), token_arg("EGLD", 0)])));
+                                sink.exec(&format!("query {} getRefundToken {}", hex::encode(&gaddr), args(&[user(u), token_arg(TOKENS[0], 0)])));
+                            }
+                        }
                         let p2 = pool[pk].clone();
                         let e = sink.exec(&format!("query {} getProposalEta {}", hex::encode(&gaddr), args(&[p2.target.clone(), p2.call_data.clone(), nat(p2.value)])));
                         etas[pk] = parse_hex_u64(&e);
